@@ -8,6 +8,20 @@ use crate::Ctx;
 use findutils::find::matchers::verif_hooks as fh;
 use std::os::unix::fs::{MetadataExt, PermissionsExt};
 
+/// the first user of /etc/passwd whose uid differs from its primary gid: (name, uid, gid)
+fn odd_user() -> Option<(String, u32, u32)> {
+    let text = std::fs::read_to_string("/etc/passwd").ok()?;
+    for l in text.lines() {
+        let f: Vec<&str> = l.split(':').collect();
+        if f.len() >= 4 {
+            if let (Ok(u), Ok(g)) = (f[2].parse::<u32>(), f[3].parse::<u32>()) {
+                if u != g && u != 0 && !f[0].is_empty() { return Some((f[0].to_string(), u, g)); }
+            }
+        }
+    }
+    None
+}
+
 fn chown(p: &std::path::Path, uid: u32, gid: u32) {
     let c = std::ffi::CString::new(p.to_str().unwrap()).unwrap();
     unsafe { libc::lchown(c.as_ptr(), uid, gid) };
@@ -78,7 +92,9 @@ pub fn run_prop(ctx: &Ctx, sink: &mut Sink) {
         std::fs::create_dir_all(&dir).unwrap();
         let t = dir.join("t");
         std::fs::create_dir(&t).unwrap();
-        let owners = [(0u32, 0u32), (1, 1), (1000, 100), (65534, 65534), (4242, 7)];
+        let mut owners = vec![(0u32, 0u32), (1, 1), (1000, 100), (65534, 65534), (4242, 7)];
+        // (a user of the password database whose uid is not its primary gid: -user NAME is about the uid)
+        if let Some((_, u, g)) = odd_user() { owners.extend([(u, g), (g, u), (u, g)]); }
         for i in 0..5 {
             let f = t.join(format!("f{i}"));
             std::fs::write(&f, if i % 2 == 0 { &b"data"[..] } else { &b""[..] }).unwrap();
@@ -121,7 +137,11 @@ pub fn run_prop(ctx: &Ctx, sink: &mut Sink) {
                 3 | 4 => format!("permop:{}", hex(perm_operand(&mut rng).as_bytes())),
                 5 => format!("sc:l:{}:{}", rng.pick(&["p", "e", "m"]), rng.range(1, 3)),
                 6 => format!("sc:i:{}:{}", rng.pick(&["p", "e", "m"]), if rng.chance(1, 2) { f0.ino() } else { d1.ino() }),
-                7 => format!("sc:u:{}:{}", rng.pick(&["p", "e", "m"]), rng.pick(&[0, 1, 1000, 65534])),
+                7 => {
+                    let mut ids: Vec<u32> = vec![0, 1, 1000, 65534];
+                    if let Some((_, u, g)) = odd_user() { ids.extend([u, u, g]); }
+                    format!("sc:u:{}:{}", rng.pick(&["p", "e", "e", "m"]), rng.pick(&ids))
+                }
                 8 => format!("sc:g:{}:{}", rng.pick(&["p", "e", "m"]), rng.pick(&[0, 1, 100, 7])),
                 9 => "empty".into(),
                 10 => {
@@ -169,7 +189,8 @@ fn run_case13(ctx: &Ctx, cwd: &std::path::Path, flag: &str, roots: &[(Vec<u8>, S
                 if let (Some(a), "e") = (alt, f[2]) {
                     if rng.chance(1, 3) {
                         args.push(a.into());
-                        args.push(if f[3] == "0" && rng.chance(1, 2) { "root".into() } else { f[3].into() });
+                        let named = odd_user().filter(|(_, u, _)| a == "-user" && f[3] == u.to_string());
+                        args.push(if f[3] == "0" && rng.chance(1, 2) { "root".into() } else if let Some((nm, _, _)) = named { nm } else { f[3].into() });
                         wire_toks.push(t.clone());
                         continue;
                     }
